@@ -209,8 +209,8 @@ PROPS["C01"] = {
     "module": "MsiProofs.Props.C01b",
     "gen": ["limits", "summary", "column", "streamname", "category", "codepage"],
     "profiles": ["dev"],
-    "theorems": ["MsiProofs.C01.cell_roundtrip", "MsiProofs.C01.rows_roundtrip", "MsiProofs.C01.pool_roundtrip", "MsiProofs.C01.storable_spec", "MsiProofs.C01.flush_clean", "MsiProofs.C01.finish_clears", "MsiProofs.C01.flush_idempotent", "MsiProofs.C01.close_modes_same_bytes", "MsiProofs.C01.open_synced", "MsiProofs.C01.op_step", "MsiProofs.C01.history", "MsiProofs.C01.finish_saved", "MsiProofs.C01.finish_step", "MsiProofs.C01.openCore_of_saved", "MsiProofs.C01.reopen_after_any_history", "MsiProofs.C01.table_stream_notMeta", "MsiProofs.C01.user_stream_notMeta", "MsiProofs.C01.ascii_roundtrip", "MsiProofs.C01.poolOk_ascii", "MsiProofs.C01.synced_open", "MsiProofs.C01.reopen_same_tables", "MsiProofs.C01.op_allInv", "MsiProofs.C01.history_allInv", "MsiProofs.C01.reopen_after_history", "MsiProofs.C01.op_kept", "MsiProofs.C01.finish_catalogSynced", "MsiProofs.C01.createTable_full", "MsiProofs.C01.dropTable_full", "MsiProofs.C01.full_transfer", "MsiProofs.C01.created_full", "MsiProofs.C01.finish_core", "MsiProofs.C01.step_full", "MsiProofs.C01.saved_after_save", "MsiProofs.C01.history_full", "MsiProofs.C01.create_unfold", "MsiProofs.C01.create_reopens", "MsiProofs.C01.created_reopens", "MsiProofs.C01.create_succeeds", "MsiProofs.C01.demo_created", "MsiProofs.C01.demo_admissible", "MsiProofs.C01.demo_accepted"],
-    "level_text": 'WHOLE LIFE OF A PACKAGE (create_reopens): for every package returned by Package::create, after ANY sequence of calls of the whole mutating API - inserts, updates and deletes on user tables (accepted or refused), create_table and drop_table calls (refused up front, or accepted), stream writes and removals, signature removal, any summary setter or clearer, set_database_codepage, saves, and closing and reopening after a save (any number of sessions) - and a final successful save, open on the saved container succeeds and yields a package with the same container, summary information, string pool AND table definitions, in which every table reads the same rows. Proved by an invariant (Full + NoOrphans: exact reference counts, ascending keys, metadata streams in sync, the three catalog tables holding exactly the rows of every definition, no table stream without a table) that the state built by create satisfies (created_full; create itself is kernel-evaluated to succeed: create_succeeds, and a history with an accepted create_table, accepted and refused inserts, a delete, an accepted and a refused drop_table is shown admissible: demo_admissible), and that every such call preserves (step_full, history_full: induction over the call list, no bound). Hypotheses left: at each save the state is expressible in the format (Savable: text encodable in the code page - a theorem for ASCII text -, well-formed summary); a create_table that passes its up-front checks and then fails midway (only the pool-capacity panic D16b or a catalog already holding rows for that name can do that) is outside the covered histories. END TO END (reopen_after_history): from any state satisfying the package invariants (AllInv: reference counts exact up to a slack, keys ascending, metadata streams in sync, catalog tables in sync with the table list), after any history of inserts, updates and deletes on user tables - accepted or refused - and a successful save of a state expressible in the format, open on the saved container succeeds and yields a package with the same container, summary information, string pool AND table definitions (the catalog pass is proved to return the in-memory list: synced_open), in which every table reads the same rows. For ASCII text the codec part of Savable is a theorem under every code page (poolOk_ascii). Lean theorems on the package model: HISTORIES — an invariant (Synced: whenever a modified flag is down, the summary/pool streams of the container decode to the in-memory summary/pool) that open establishes, that every API request preserves (insert, update, delete, create_table, drop_table, stream write/remove, signature removal, summary and code-page setters; accepted or refused; induction over the request list, no bound) and that a successful save re-establishes; hence reopen_after_any_history: after any history and a successful save, reopening yields the same container, summary information and string pool, so every table definition reads the same rows. Uses the frame condition that table and user streams never are the metadata streams under cfb\'s case-insensitive comparison (proved; false for tables named _StringPool/_StringData, which is how defect D22 was found). Layers: string-pool, row-block, cell and property-set round trips; the empty string is stored as null; flush writes exactly what changed and a second flush changes nothing; the three ways of closing leave the same bytes. NOT proved (tied by correspondence + oracle): that reachable states are expressible in the format (Savable is a hypothesis at the save; a theorem for ASCII text). Composition on the real code: byte-exact correspondence model vs real crate + oracle on the real code: snapshot before close = snapshot after reopen, for every close mode incl. crash-after-flush (bytes on the medium when flush returned, package forgotten).',
+    "theorems": ["MsiProofs.C01.cell_roundtrip", "MsiProofs.C01.rows_roundtrip", "MsiProofs.C01.pool_roundtrip", "MsiProofs.C01.storable_spec", "MsiProofs.C01.flush_clean", "MsiProofs.C01.finish_clears", "MsiProofs.C01.flush_idempotent", "MsiProofs.C01.close_modes_same_bytes", "MsiProofs.C01.open_synced", "MsiProofs.C01.op_step", "MsiProofs.C01.history", "MsiProofs.C01.finish_saved", "MsiProofs.C01.finish_step", "MsiProofs.C01.openCore_of_saved", "MsiProofs.C01.reopen_after_any_history", "MsiProofs.C01.table_stream_notMeta", "MsiProofs.C01.user_stream_notMeta", "MsiProofs.C01.ascii_roundtrip", "MsiProofs.C01.poolOk_ascii", "MsiProofs.C01.synced_open", "MsiProofs.C01.reopen_same_tables", "MsiProofs.C01.op_allInv", "MsiProofs.C01.history_allInv", "MsiProofs.C01.reopen_after_history", "MsiProofs.C01.op_kept", "MsiProofs.C01.finish_catalogSynced", "MsiProofs.C01.createTable_full", "MsiProofs.C01.dropTable_full", "MsiProofs.C01.full_transfer", "MsiProofs.C01.created_full", "MsiProofs.C01.finish_core", "MsiProofs.C01.step_full", "MsiProofs.C01.saved_after_save", "MsiProofs.C01.created_ascii_reopens", "MsiProofs.C01.historyA", "MsiProofs.C01.step_pt", "MsiProofs.C01.history_full", "MsiProofs.C01.create_unfold", "MsiProofs.C01.create_reopens", "MsiProofs.C01.created_reopens", "MsiProofs.C01.create_succeeds", "MsiProofs.C01.demo_created", "MsiProofs.C01.demo_admissible", "MsiProofs.C01.demo_accepted"],
+    "level_text": 'WHOLE LIFE OF A PACKAGE (create_reopens): for every package returned by Package::create, after ANY sequence of calls of the whole mutating API - inserts, updates and deletes on user tables (accepted or refused), create_table and drop_table calls (refused up front, or accepted), stream writes and removals, signature removal, any summary setter or clearer, set_database_codepage, saves, and closing and reopening after a save (any number of sessions) - and a final successful save, open on the saved container succeeds and yields a package with the same container, summary information, string pool AND table definitions, in which every table reads the same rows. Proved by an invariant (Full + NoOrphans: exact reference counts, ascending keys, metadata streams in sync, the three catalog tables holding exactly the rows of every definition, no table stream without a table) that the state built by create satisfies (created_full; create itself is kernel-evaluated to succeed: create_succeeds, and a history with an accepted create_table, accepted and refused inserts, a delete, an accepted and a refused drop_table is shown admissible: demo_admissible), and that every such call preserves (step_full, history_full: induction over the call list, no bound). Hypotheses left: at each save the state is expressible in the format (Savable: text the code page encodes and decodes back, well-formed summary) - DISCHARGED FOR ASCII TEXT (created_ascii_reopens: when every text handed to the library is ASCII, the pool of every reachable state is provably expressible under any supported code page - counts below 65,536, no live empty entry - and only the well-formedness of the summary is assumed at the final save); a create_table that passes its up-front checks and then fails midway (only the pool-capacity panic D16b or a catalog already holding rows for that name can do that) is outside the covered histories. END TO END (reopen_after_history): from any state satisfying the package invariants (AllInv: reference counts exact up to a slack, keys ascending, metadata streams in sync, catalog tables in sync with the table list), after any history of inserts, updates and deletes on user tables - accepted or refused - and a successful save of a state expressible in the format, open on the saved container succeeds and yields a package with the same container, summary information, string pool AND table definitions (the catalog pass is proved to return the in-memory list: synced_open), in which every table reads the same rows. For ASCII text the codec part of Savable is a theorem under every code page (poolOk_ascii). Lean theorems on the package model: HISTORIES — an invariant (Synced: whenever a modified flag is down, the summary/pool streams of the container decode to the in-memory summary/pool) that open establishes, that every API request preserves (insert, update, delete, create_table, drop_table, stream write/remove, signature removal, summary and code-page setters; accepted or refused; induction over the request list, no bound) and that a successful save re-establishes; hence reopen_after_any_history: after any history and a successful save, reopening yields the same container, summary information and string pool, so every table definition reads the same rows. Uses the frame condition that table and user streams never are the metadata streams under cfb\'s case-insensitive comparison (proved; false for tables named _StringPool/_StringData, which is how defect D22 was found). Layers: string-pool, row-block, cell and property-set round trips; the empty string is stored as null; flush writes exactly what changed and a second flush changes nothing; the three ways of closing leave the same bytes. NOT proved (tied by correspondence + oracle): that reachable states are expressible in the format (Savable is a hypothesis at the save; a theorem for ASCII text). Composition on the real code: byte-exact correspondence model vs real crate + oracle on the real code: snapshot before close = snapshot after reopen, for every close mode incl. crash-after-flush (bytes on the medium when flush returned, package forgotten).',
     "level_note": "Trusted: Lean kernel; the hand-written package model (MsiModel/Pkg.lean, PkgApi.lean, Pool, Table, PropSet, Summary), tied to the code by byte-exact correspondence: the same request histories run on the real crate and on the model's definitions, compared on every reply including full snapshots and the raw bytes of every saved stream; cfb is modelled as a finite map from names (compared by UTF-16 length and upper-cased text) to byte strings; the 24 table-backed code pages are modelled on ASCII text only (non-ASCII text is exercised under UTF-8; all pages are exercised by the oracle on the real code).",
     "technique": 'Lean 4 proof (codec round trip, flush idempotence) + byte-exact differential histories + reopen oracle',
     "rule": 'seeded random sessions: package type, database code page, 1-3 tables with random schemas (types, widths, flags, ranges, categories, enumerations, composite/nullable keys), inserts (valid with controlled invalid mutations), updates (incl. key columns), deletes, selects, stream writes/removes (0..9000 bytes), summary setters/clearers, create/drop table, rejected calls, close/reopen in all three modes at random positions, snapshot after every step, raw bytes after flush. non-trivial = distinct successful mutating requests + decoded files',
@@ -274,8 +274,8 @@ PROPS["C08"] = {
     "module": "MsiProofs.Props.C08b",
     "gen": ["limits", "column"],
     "profiles": ["dev"],
-    "theorems": ["MsiProofs.C08.cell_roundtrip", "MsiProofs.C08.min_is_null", "MsiProofs.C08.rows_roundtrip", "MsiProofs.C08.pool_roundtrip", "MsiProofs.C08.increfScan_total", "MsiProofs.C08.incref_accounting", "MsiProofs.C08.decrefAt_total", "MsiProofs.C08.decref_accounting", "MsiProofs.C08.incref_exact", "MsiProofs.C08.decref_spec", "MsiProofs.C08.insert_accounted", "MsiProofs.C08.delete_accounted", "MsiProofs.C08.exact_iff", "MsiProofs.C08.history_inv", "MsiProofs.C08.insert_inv", "MsiProofs.C08.delete_inv", "MsiProofs.C08.update_inv", "MsiProofs.C08.dml_history_inv", "MsiProofs.C08.s0_inv", "MsiProofs.C08.s0_sorted", "MsiProofs.C08.created_history_exact", "MsiProofs.C08.createTable_full", "MsiProofs.C08.dropTable_full", "MsiProofs.C08.release_stage"],
-    "level_text": "EVERY REACHABLE STATE (created_history_exact): in every state reachable from Package::create by statements on user tables (accepted or refused), create_table, drop_table and saves, the reference count of every pool entry equals the number of cells, over all tables incl. the catalog, that refer to it (slack 0); create_table and drop_table keep the counts exact (createTable_full, dropTable_full; drop_table releases exactly the dropped table's references: release_stage). Update::exec included: every history of inserts, updates and deletes keeps the counts exact over the whole package (dml_history_inv). WHOLE PACKAGES, WHOLE HISTORIES: the invariant Inv (every table loads; table streams pairwise distinct; reference counts = references held by the cells of ALL tables + a fixed slack; pool within its reference width) is re-established by every successful insert or delete on any table and untouched by every refused one, hence holds along every history (history_inv: induction over the request list). EXACT COUNTS AS AN INVARIANT: with AccountedWith slack p cells (references from the cells + slack = reference count, every entry), a successful Insert::exec and a successful Delete::exec leave the cells the new state reads - together with any other cells of interest, e.g. those of all other tables - accounted with the SAME slack (slack 0: counts equal the numbers of references; the empty state is exact); incref adds exactly one reference to the entry it returns, decref releases exactly one and clears text only at zero. create/drop table (catalog rows) in histories: by oracle. Lean theorems: cells are offset-binary with zero = null and the reserved minimum; incref adds exactly one reference to an entry holding exactly the string and never yields a live empty entry, decref removes exactly one and clears the text at zero (unused entries are empty), dangling references change nothing. Tie: the raw streams of every saved file are decoded by an independent decoder (harness/src/decode.rs): whole rows, live references, exact reference counts over all tables incl. the catalog, no stale text, catalog = existing tables with columns numbered 1..n, rows = API rows; and compared byte-for-byte with the model's own save.",
+    "theorems": ["MsiProofs.C08.cell_roundtrip", "MsiProofs.C08.min_is_null", "MsiProofs.C08.rows_roundtrip", "MsiProofs.C08.pool_roundtrip", "MsiProofs.C08.increfScan_total", "MsiProofs.C08.incref_accounting", "MsiProofs.C08.decrefAt_total", "MsiProofs.C08.decref_accounting", "MsiProofs.C08.incref_exact", "MsiProofs.C08.decref_spec", "MsiProofs.C08.insert_accounted", "MsiProofs.C08.delete_accounted", "MsiProofs.C08.exact_iff", "MsiProofs.C08.history_inv", "MsiProofs.C08.insert_inv", "MsiProofs.C08.delete_inv", "MsiProofs.C08.update_inv", "MsiProofs.C08.dml_history_inv", "MsiProofs.C08.s0_inv", "MsiProofs.C08.s0_sorted", "MsiProofs.C08.created_history_exact", "MsiProofs.C08.createTable_full", "MsiProofs.C08.dropTable_full", "MsiProofs.C08.release_stage", "MsiProofs.C08.step_pt", "MsiProofs.C08.poolOk_of_pt", "MsiProofs.C08.incref_pt", "MsiProofs.C08.decref_pt"],
+    "level_text": "THE POOL STAYS EXPRESSIBLE (step_pt): in every reachable state every reference count is below 65,536, an entry is empty only when unreferenced (no live empty string), every text satisfies whatever predicate the inputs satisfy and the code page is a supported one - preserved by every call of the API; for ASCII text this is PoolOk (poolOk_of_pt): the saved pool reads back as the in-memory pool. EVERY REACHABLE STATE (created_history_exact): in every state reachable from Package::create by statements on user tables (accepted or refused), create_table, drop_table and saves, the reference count of every pool entry equals the number of cells, over all tables incl. the catalog, that refer to it (slack 0); create_table and drop_table keep the counts exact (createTable_full, dropTable_full; drop_table releases exactly the dropped table's references: release_stage). Update::exec included: every history of inserts, updates and deletes keeps the counts exact over the whole package (dml_history_inv). WHOLE PACKAGES, WHOLE HISTORIES: the invariant Inv (every table loads; table streams pairwise distinct; reference counts = references held by the cells of ALL tables + a fixed slack; pool within its reference width) is re-established by every successful insert or delete on any table and untouched by every refused one, hence holds along every history (history_inv: induction over the request list). EXACT COUNTS AS AN INVARIANT: with AccountedWith slack p cells (references from the cells + slack = reference count, every entry), a successful Insert::exec and a successful Delete::exec leave the cells the new state reads - together with any other cells of interest, e.g. those of all other tables - accounted with the SAME slack (slack 0: counts equal the numbers of references; the empty state is exact); incref adds exactly one reference to the entry it returns, decref releases exactly one and clears text only at zero. create/drop table (catalog rows) in histories: by oracle. Lean theorems: cells are offset-binary with zero = null and the reserved minimum; incref adds exactly one reference to an entry holding exactly the string and never yields a live empty entry, decref removes exactly one and clears the text at zero (unused entries are empty), dangling references change nothing. Tie: the raw streams of every saved file are decoded by an independent decoder (harness/src/decode.rs): whole rows, live references, exact reference counts over all tables incl. the catalog, no stale text, catalog = existing tables with columns numbered 1..n, rows = API rows; and compared byte-for-byte with the model's own save.",
     "level_note": "Trusted: Lean kernel; the hand-written package model (MsiModel/Pkg.lean, PkgApi.lean, Pool, Table, PropSet, Summary), tied to the code by byte-exact correspondence: the same request histories run on the real crate and on the model's definitions, compared on every reply including full snapshots and the raw bytes of every saved stream; cfb is modelled as a finite map from names (compared by UTF-16 length and upper-cased text) to byte strings; the 24 table-backed code pages are modelled on ASCII text only (non-ASCII text is exercised under UTF-8; all pages are exercised by the oracle on the real code).",
     "technique": 'Lean 4 proof (reference-count accounting by induction) + independent format decoder on real saved bytes',
     "rule": 'seeded random sessions: package type, database code page, 1-3 tables with random schemas (types, widths, flags, ranges, categories, enumerations, composite/nullable keys), inserts (valid with controlled invalid mutations), updates (incl. key columns), deletes, selects, stream writes/removes (0..9000 bytes), summary setters/clearers, create/drop table, rejected calls, close/reopen in all three modes at random positions, snapshot after every step, raw bytes after flush. non-trivial = distinct successful mutating requests + decoded files',
